@@ -107,7 +107,7 @@ def plan(tier):
     q = tier == "quick"
     T = 300 if q else 1500
     kinds = list(range(11))
-    specs = [("encode_decode", [(t,) for t in range(4)]), ("decode_adversarial", [(t, k) for t in range(4) for k in (kinds if not q else (0, 2, 3, 4, 8, 9))])]
+    specs = [("encode_decode", [(t, k) for t in range(4) for k in (kinds if not q else (0, 3, 5, 9))]), ("decode_adversarial", [(t, k) for t in range(4) for k in (kinds if not q else (0, 2, 3, 4, 8, 9))])]
     path, names = gen.specialise(BASE, specs, "c09_gen.py")
     conds = [Cond(path, n, "main", T, n) for n in names] + [Cond(BASE, "witness", "witness", 120)]
     obls = [Obl("vlib.props.c09", "numeric_date", {"claim": c, "naive": nv}, "datetime -> NumericDate for every instant and UTC offset", 300)
